@@ -227,7 +227,7 @@ def _serial_scenarios(ctx: Ctx, item):
 
 def run(ctx: Ctx):
     pmap(ctx, _serial_scenarios, [(0,)])
-    n = 60 if ctx.quick else 800
+    n = 60 if ctx.quick else 4000
     pmap(ctx, _work, [(k, n) for k in aio.CLIENT_KINDS for _ in range(4)])
 
 
